@@ -27,9 +27,10 @@ PROPS = {
         "trusted_base": [INTERP_MODELLED],
     },
     "C10": {
-        "rule": SCRIPTS_RULE + "profile: every second new variable has a meta()/balance()/overdraft() origin; each script is executed against the four store behaviours {static (bundled StaticStore), exact, sparse (omits absent and zero), superset (whole content)} with all calls logged. Non-trivial: at least one store call is made; distinct by hash.",
-        "assumptions": ["the four store behaviours of harness/interp.go and coq/Corr/Observe.v (answer_balances) are the 'faithful' stores of the property"],
-        "trusted_base": [INTERP_MODELLED, "the refinement 'run against a faithful store = run from the balance sheet' is decided by the correspondence (proof in progress: Proofs/CoverageProofs.v)"],
+        "rule": SCRIPTS_RULE + "profile: every second new variable has a meta()/balance()/overdraft() origin; directed templates unboundedThenBounded and worldBalance (a non-zero balance of @world on the ledger, read through balance()/overdraft() after another origin made the store answer); each script is executed against the four store behaviours {static (bundled StaticStore), exact, sparse (omits absent and zero), superset (whole content)} with all calls logged; every observation must equal the outcome of the sheet semantics (Spec/SheetRun.run_sheet, evaluated in Coq from the ledger alone). Non-trivial: at least one store call is made; distinct by hash.",
+        "assumptions": ["'faithful' (Spec/SheetRun.v): a store answers every balance query with at least the requested cells at their ledger value (absent or zero cells may be omitted, anything may be added) and every metadata query with the ledger's text; the four behaviours of the harness are proved faithful (C10_store_kinds_faithful)",
+                        "the sheet semantics reads cells that are never requested (incl. every balance of @world) as 0"],
+        "trusted_base": [INTERP_MODELLED],
     },
     "C11": {
         "rule": SCRIPTS_RULE + "each script: run twice against the bundled StaticStore built on the caller's own maps, deep comparison of variables/balances/metadata before and after, flag on/off, and 16 goroutines x 3 runs sharing one ParseResult and one store (thorough tier: race-detector build, each case's concurrent part in a child process with GORACE exitcode). Non-trivial: success with postings; distinct by hash.",
